@@ -386,3 +386,27 @@ prop("C17",
                 "and not judged. Programs that share one connection between several readers are not generated in bubbles.",
      technique="race detector + linearizability checking of recorded histories (porcupine) + termination monitors under schedule perturbation",
      assumptions=["porcupine v1.3.0", "go1.26 testing/synctest virtual time for the transport programs"])
+
+prop("C06",
+     level="exploration",
+     exhaustive=True,
+     parts=[{"engine": "principal"}],
+     floor={"quick": 300, "thorough": 5000},
+     rule="The real authgrants.StartPrincipalInstance between a harness delegate (net.Pipe) and targets: the real "
+          "StartTargetInstance with scripted checkIntent/addAuthGrant (confirm, deny, add-grant fails), a failing connection set-up, "
+          "and raw scripted targets (confirm, deny, close after reading, garbage reply). The set-up callback invokes the "
+          "verification callback as the real handshake does. All request sequences of length <=2 (quick) / <=3 (thorough) over "
+          "{approve, deny} x {confirm, deny, add-grant fails, set-up fails} x {connected target, other target}, plus random "
+          "sequences up to length 8 with random field values (all grant types incl. unknown, user names 0-200 bytes, commands "
+          "0-100 bytes). Every request carries a unique user name / command. Events (request, approval call/return, set-up, bytes "
+          "written to the target decoded as IntentCommunication, target decision, each answer read by the delegate incl. extra "
+          "ones) are logged with a global sequence number; offline predicate per request: exactly one answer; a forwarded intent "
+          "is preceded by an accepting approval of the same request and equals the requested and the approved intent field by "
+          "field; a confirmation needs the target's confirmation with the grant stored. Non-trivial = a request sequence run to "
+          "the end with the predicate evaluated; distinct by enumeration or sequence.",
+     level_text="Exhaustive over short decision sequences, exploration over random ones, with an offline trace predicate over the "
+                "recorded event log of the real principal and target code.",
+     level_note="A nil approval callback means 'no approval configured' (the code then accepts everything and a unit test pins "
+                "that); such runs are outside the statement. hopclient's wrapper around the callback is not exercised.",
+     technique="runtime trace monitoring (event log + offline predicate) of the real principal/target instances over in-memory pipes",
+     assumptions=["set-up callback invokes the verification callback, as hopclient's setupTargetClient does"])
